@@ -34,3 +34,8 @@ CLAIMED['C01'] = (
  'For every transaction shape inside the bounds (1-2 (thorough 3) inputs/outputs, every sign index, seven signed-input kinds incl. m-of-n multisig with symbolic m, mixed legacy/segwit inputs) and every value of version, locktime, sequences, outpoints, amounts, keys, script bytes, z3 shows the preimage handed to the hash equals the consensus preimage (nested hashPrevouts/hashSequence/hashOutputs included) and the digest is the hash of it.',
  'Trusted: z3, proxy/shim layer, reference preimages /verif/ref/sighash.py, collision-freeness of the uninterpreted hash, Key.hash160 relation (C04). Outside: Taproot, other hash types, n > 5. Listed finding: an output script that is the single byte 00.',
  'DESIGN.md C01')
+CLAIMED['C03'] = (
+ 'symbolic execution of the real HDKey.child_private/child_public/subkey_for_path/from_seed (symx, 272-bit bit-vectors) in the generic-group model of secp256k1 with HMAC-SHA512 / hash160 / point serialisation as uninterpreted functions; per-path SMT obligations against BIP32 CKD',
+ 'From an arbitrary parent (every secret in [1,n-1], every chain code, depth), for every index 0..2^32+1 and hardened flag z3 shows: the HMAC key and data bytes are exactly those of BIP32, the child scalar/point is (I_L + k) mod n, invalid I_L is refused, depth/child number/parent fingerprint/chain code are as specified, private and public derivation commute, an index >= 2^31 or a hardened marker is always refused below a public key, and subkey_for_path equals the iterated CKD for every marker spelling.',
+ 'Trusted: z3, proxy/shim layer, the group model (sound for statements that hold in every cyclic group of order n), uninterpreted HMAC/hash160. Outside: that fastecdsa computes the real curve/HMAC, depth > 2. Listed findings: point at infinity not refused in child_public (model only), seeds made of ASCII hex digits are hex-decoded.',
+ 'DESIGN.md C03')
